@@ -785,8 +785,12 @@ def _x10(ctx) -> None:
     rule_X10(ctx)       # ... and the import line registered for it names that package
 
 
+def _x1b(ctx) -> None:
+    template.rule_X1b(ctx)   # ... and is executed only after the module's own classes exist (circular package references)
+
+
 def run(ctx) -> None:
-    for name, fn in (("X3", _x3), ("X10", _x10), ("P14", rule_P14), ("P1", template.rule_P1), ("P2", rule_P2), ("P3", rule_P3), ("P4", rule_P4), ("P5", rule_P5), ("P6", rule_P6), ("P7", rule_P7), ("P8", rule_P8), ("Y2iii", template.rule_Y2iii), ("P9", rule_P9), ("P10", rule_P10), ("P11", rule_P11), ("P12", rule_P12), ("P13", rule_P13)):
+    for name, fn in (("X3", _x3), ("X10", _x10), ("X1", _x1b), ("P14", rule_P14), ("P1", template.rule_P1), ("P2", rule_P2), ("P3", rule_P3), ("P4", rule_P4), ("P5", rule_P5), ("P6", rule_P6), ("P7", rule_P7), ("P8", rule_P8), ("Y2iii", template.rule_Y2iii), ("P9", rule_P9), ("P10", rule_P10), ("P11", rule_P11), ("P12", rule_P12), ("P13", rule_P13)):
         ctx.rules_run.append(name)
         fn(ctx)
     from . import phases
